@@ -252,6 +252,8 @@ def alternative_jaccard(x, y):
 
     if num_non_zero == 0.0:
         return 0.0
+    elif num_equal == 0.0:
+        return FLOAT32_MAX
     else:
         return -np.log2(num_equal / num_non_zero)
 
